@@ -17,13 +17,13 @@ RULE = ("cases = one entity declaration (CREATE TYPE AS ENUM/OBJECT/TABLE, CREAT
         "every name form (plain, qualified, delimited), enum lists of 1..12 values, 1..6 attributes/columns, alone or between "
         "tables; for types, followed by a table using the type at first/middle/last column with options. Exhaustive option "
         "products first, then seeded random. Non-trivial = every case (each compares a full entity); distinct = distinct DDL text."
-        " Added after seeded defects: keyword-case variants of the declarations the pinned tree recognises case-insensitively, keyword-shaped type names, CREATE DOMAIN AS ENUM, the CREATE TYPE property-list form, several declarations per script, run(); run(group_by_type); run() on one object, OBJECT attributes with type parameters, comments, enum values, array and two-word types, type names containing type keywords, BigQuery back-quoted schema paths, every 4th case also with normalize_names=True (same entities minus one pair of delimiters per name).")
+        " Added after seeded defects: keyword-case variants of the declarations the pinned tree recognises case-insensitively, keyword-shaped type names, CREATE DOMAIN AS ENUM, the CREATE TYPE property-list form, several declarations per script, run(); run(group_by_type); run() on one object, OBJECT attributes with type parameters, comments, enum values, array and two-word types, type names containing type keywords, BigQuery back-quoted schema paths, every 4th case also with normalize_names=True (same entities minus one pair of delimiters per name); wave 9: CREATE TRANSIENT / REMOTE DATABASE and CLONE clauses, declarations framed by a SET line directly before and a statement outside the supported DDL (COMMENT ON, REVOKE, GRANT, ANALYZE) directly after.")
 ASSUMPTIONS = ["keywords are written in upper case, except that tablespace / enum / database / domain declarations are also given in lower, capitalised and random keyword case (recognised case-insensitively on the pinned tree; the tablespace kind word and ENUM are reported as written); keyword case of the other declarations is not quantified by the property and leaks into their output on the pinned tree, so it is not varied",
                "a qualified schema name a.b is reported as project=a, schema_name=b (calibrated convention); AUTHORIZATION key looked up case-insensitively",
                "domain base types are one word with a size (two-word base types are not supported by the grammar and not named)"]
 MIN_EVENTS = {"statements": 50, "run_return": 50}
 RECASE_P = 0.35
-RECASE_KINDS = {"tablespace", "enum", "database", "domain"}
+RECASE_KINDS = {"tablespace", "enum", "database", "domain"}      # (database: only without a kind word / CLONE, see build_case)
 
 ENUM_WORDS = ["'a'", "'b'", "'A'", "'new'", "'in progress'", "'done'", "'x-1'", "'N/A'", "'UPPER'", "'mixed Case'", "'z9'", "'_u'", "'q.r'", "'50%'"]
 NAMES = ["ty", "My_Type", "status_t", "T1", '"Ty"', '"my type"', "[ty2]", "`bt`", "mood_array", "Tag_Arrays", "enum_t", "object_id_t", "emp#status", "t$1", "_ty"]   # ... names that merely contain a type keyword
@@ -189,10 +189,19 @@ def gen_database(rng):
     nm = rng.choice(["db", "My_DB", '"Db"', "DB1", "[db]"])
     exp = {"database_name": nm}
     text = "CREATE DATABASE " + nm
-    if rng.random() < 0.3:
+    kindw = rng.choice([None, None, "TRANSIENT", "REMOTE"])
+    if kindw:
+        text = "CREATE %s DATABASE %s" % (kindw, nm)
+        exp[kindw.lower()] = True
+    r = rng.random()
+    if r < 0.3 and not kindw:
         lit = rng.choice(["'x'", "'main db'"])
         text += " COMMENT " + lit
         exp["comment"] = lit
+    elif r < 0.55:
+        src = rng.choice(["prod", "Src_DB", "p1"])
+        text += " CLONE " + src
+        exp["clone"] = {"from": src}
     return text + ";", exp, None, None
 
 
@@ -273,7 +282,12 @@ def build_case(rng, ekind, gen, **kw):
         if kind == "enum":
             exp["base_type"] = re.search(r"\bAS\s+(ENUM)\b", ddl, re.I).group(1)
     stmts, plan = [], []
-    if rng.random() < 0.4:
+    framed = rng.random() < 0.2
+    if framed:
+        # a session setting directly before and a statement outside the supported DDL directly after (psql / pg_dump style)
+        stmts.append("SET search_path = public;")
+        plan.append({"kind": "neighbour", "ddl": "SET search_path = public;"})
+    elif rng.random() < 0.4:
         nb = rng.choice(NEIGHBOURS) % 0
         stmts.append(nb)
         plan.append({"kind": "neighbour", "ddl": nb})
@@ -287,6 +301,8 @@ def build_case(rng, ekind, gen, **kw):
             if kf2 is None:
                 stmts.append(d2)
                 plan.append({"kind": "entity", "entity_kind": k2, "expected": e2})
+    if framed:
+        stmts.append(rng.choice(["COMMENT ON SCHEMA app IS 'application objects';", "REVOKE ALL ON t FROM PUBLIC;", "GRANT USAGE ON SCHEMA app TO joe;", "ANALYZE t;"]))
     if tname is not None and rng.random() < 0.6:
         uddl, uexp = user_table(rng, tname, rng.randrange(3))
         stmts.append(uddl)
